@@ -407,6 +407,7 @@ def run(prog, rep, tier, repo):
         key = 'romberg-stop'
         problems = []
         nret = 0
+        unread_stop = False
         for d in f._defs.get(0, []):
             bb = d[1]
             val = f.rvalue_term(d[3], bb) if d[0] == 'assign' else f.call_term(d[2], bb)
@@ -450,15 +451,26 @@ def run(prog, rep, tier, repo):
             prev = ('agg', idx[1], idx[2], (('bin', 'Sub', item, ('const', 'usize', 1), 'usize'),) * 2) if idx is not None else None
             conds = f.control_conds(bb)
             cmpc = [c for c in conds if tag(c) == 'bin' and c[1] in ('Lt', 'Le') and c[4] == 'f64']
+            if not cmpc:
+                # the test may sit in a local closure (`converged(r[n,n], r[n-1,n-1])`): read its comparisons with the arguments substituted
+                from ..tol import _bool_leaves
+                for c in conds:
+                    if tag(c) == 'call':
+                        cmpc += [l for l, _ in _bool_leaves(prog, c, True, 0, f) if tag(l) == 'bin' and l[1] in ('Lt', 'Le') and l[4] == 'f64']
+                if not cmpc:
+                    unread_stop = True
             okc = bool(cmpc)
             for c in cmpc:
                 reads = [z for z in subterms(c[2]) if tag(z) == 'call' and len(z[2]) == 2 and tag(z[2][1]) == 'agg']
                 idxs = set(z[2][1][3] for z in reads)
                 if idxs != {(item, item), prev[3]}:
                     okc = False
-            if not okc:
+            if not okc and cmpc:
                 problems.append('the stopping test does not compare R[n,n] with R[n-1,n-1] against the tolerance (difference < eps)')
-        if nret == 0 and len(f._defs.get(0, [])) > 1:
+        if unread_stop and not problems:
+            rep.undecided('romberg-stop', key, 'no floating-point comparison found among the conditions of the early return (test written in a form not read)',
+                          site_of(f.body), proof=False)
+        elif nret == 0 and len(f._defs.get(0, [])) > 1:
             rep.undecided('romberg-stop', key, 'several return sites but none recognised as leaving the level loop')
         elif nret == 0:
             rep.ok('romberg-stop', key, 'no early return: all nmax levels are always computed')
